@@ -433,11 +433,11 @@ def c16():
                       "Segment::from_pmmr exists iff its first leaf is inside the mmr; what it produces validates against the root (validate) and under a merged root (validate_with)",
                       "%d leaves (symbolic contents), segment height %d index %d, non-prunable" % (n, h, idx),
                       env={"VH_NLEAF": n, "VH_SEGH": h, "VH_SEGIDX": idx}, tag="_n%d_h%d_i%d" % (n, h, idx), est=300, loops=HL, allow_unsat=["segment produced"] if idx * (1 << h) >= n else []))
-    for n, h, idx, tiers in [(4, 1, 0, "qt"), (4, 1, 1, "qt"), (3, 1, 1, "qt"), (4, 0, 2, "t"), (5, 1, 1, "t"), (7, 1, 2, "t")]:
+    for n, h, idx, tiers in [(4, 1, 0, "t"), (4, 1, 1, "t"), (3, 1, 1, "t"), (4, 0, 2, "t"), (5, 1, 1, "t")]:
         obs.append(ob("c16::segment_prunable_uncompacted_complete", tiers, 8,
                       "prunable MMR, spent leaves pruned but not compacted: the segment from_pmmr(prunable) produces validates against the root under EVERY unspent bitmap (whole segment spent, sibling subtree spent too, partial, none)",
                       "%d leaves (symbolic contents), segment height %d index %d, symbolic unspent bitmap over the leaves" % (n, h, idx),
-                      env={"VH_NLEAF": n, "VH_SEGH": h, "VH_SEGIDX": idx}, tag="_n%d_h%d_i%d" % (n, h, idx), est=400, loops=HL, mem_est_gb=10))
+                      env={"VH_NLEAF": n, "VH_SEGH": h, "VH_SEGIDX": idx}, tag="_n%d_h%d_i%d" % (n, h, idx), est=1500, cap_s=3600, loops=HL, mem_est_gb=12))
     for n, h, idx, tiers in [(2, 0, 0, "t"), (3, 1, 0, "t"), (3, 1, 1, "t")]:
         obs.append(ob("c16::segment_sound", tiers, 8,
                       "under the ideal hash: changing a leaf's data or position, a proof hash, dropping a leaf or proof hash, or the identifier makes validate fail  [thorough-tier ATTEMPT: did not finish in 30 min at 3 leaves]",
@@ -482,6 +482,9 @@ def c08():
     for k, lim, tiers in [(0, 15, "qt"), (1, 15, "qt"), (2, 15, "qt"), (2, 31, "t")]:
         obs.append(ob("c08::leaf_set_removed_pre_cutoff", tiers, lim + 3, "LeafSet::removed_pre_cutoff = leaf positions up to the cutoff that are neither unspent at the cutoff (set restricted to the cutoff plus the positions removed since) nor already pruned: exactly what a compaction at that cutoff may remove",
                       "any leaf set / removed set over positions < %d, any cutoff, prune list: K = %d " % (lim, k) + PL % lim, env={"VH_LIM": lim, "VH_K": k}, tag="_k%d_l%d" % (k, lim), est=300, loops=BL, mem_est_gb=8))
+    for k, lim, tiers in [(0, 15, "qt"), (1, 15, "qt"), (2, 15, "qt"), (1, 31, "t"), (2, 31, "t")]:
+        obs.append(ob("c08::compaction_plan_matches_definition", tiers, lim + 3, "PMMRBackend::pos_to_rm (planning step of check_compact, on a backend with detached files): leaves removed = spent unpruned leaves up to the cutoff; positions to remove = positions newly interior to a pruned subtree (roots of pruned subtrees stay, already-removed positions are not removed twice)",
+                      "any consistent leaf set / rewind set over positions < %d, any cutoff, prune list: K = %d " % (lim, k) + PL % lim, env={"VH_LIM": lim, "VH_K": k}, tag="_k%d_l%d" % (k, lim), est=400, loops=BL, mem_est_gb=8))
     for k, lim, tiers in [(1, 31, "t"), (2, 31, "t")]:
         obs.append(ob("c08::prune_list_new_matches_definition", tiers, 8, "PruneList::new over K ascending disjoint subtrees (siblings allowed: roll-up inside new) equals the definition", "K = %d positions < %d, symbolic" % (k, lim), env={"VH_K": k, "VH_LIM": lim}, tag="_k%d_l%d" % (k, lim), est=900, loops=dict(L, **{"PruneList3new": k + 2}), recurse={"PruneList::append": 6}, mem_est_gb=20))
     return {
